@@ -125,6 +125,11 @@ func gen(tier string, rng *h.Rng, emit0 func(string)) {
 		emit(fmt.Sprintf("xpub %d g0 %s", n, join(append(append([]string{}, peers...), "g9"), ",")))
 		emit(fmt.Sprintf("xpub %d g0 %s|%s", n, join(peers[:len(peers)/2], ","), join(peers[len(peers)/2:], ",")))
 		for i := range peers {
+			for _, bad := range []string{fmt.Sprintf("f%d", i+1), fmt.Sprintf("k%d", i+1), fmt.Sprintf("g%d", n), fmt.Sprintf("g%d", n+5), "g4294967295", "k4294967295", fmt.Sprintf("f%d", n)} {
+				m := append([]string{}, peers...)
+				m[i] = bad
+				emit(fmt.Sprintf("xpub %d g0 %s", n, join(m, ",")))
+			}
 			m := append([]string{}, peers...)
 			m[i] = "o"
 			emit(fmt.Sprintf("xpub %d g0 %s", n, join(m, ",")))
